@@ -450,12 +450,12 @@ def formatter_cases(tier, seed, fmts_all, kinds_of):
         if n <= 3:
             lists = value_lists(kinds, nl3)
         elif n == 4:
-            lists = value_lists(kinds, nl4, off=rng.randrange(len(NUM)))
+            lists = value_lists(kinds, nl4, off=rng.randrange(len(NUM)), malformed='one')
         elif n == 5 and (kinds or rng.random() < 0.25):
             # length 5: every format with a field, a seeded quarter of the others
             lists = value_lists(kinds, 2, off=rng.randrange(len(NUM)), malformed='one')
-        elif n == 6 and rng.random() < 0.05:
-            # length 6: a seeded twentieth of the strings
+        elif n == 6 and rng.random() < 0.2:
+            # length 6: a fifth of the sampled strings
             lists = value_lists(kinds, 2, off=rng.randrange(len(NUM)), malformed='one')
         else:
             lists = [[]]        # scanner only (and the formatter without values)
@@ -467,10 +467,10 @@ def formatter_cases(tier, seed, fmts_all, kinds_of):
             f'numbers: zero, ties .5 1.5 2.5 .125, carries 9.995 99.5 999.5, negatives, -0.0, '
             f'too wide, SINGLE/INTEGER/LONG; 3 strings) + malformed stream (too few, too many, '
             f'any type, swapped types, empty strings); length 4: every format x {nl4} lists from a '
-            f'seeded offset + malformed'
+            f'seeded offset + 1 malformed'
             + ('' if quick else '; length 5: every format with a field (a seeded quarter of the '
-               'others) x 2 lists + 1 malformed; length 6: a seeded twentieth x 2 lists + 1 '
-               'malformed, the rest without values')
+               'others) x 2 lists + 1 malformed; length 6: a fifth of the sampled strings x 2 lists '
+               '+ 1 malformed, the rest without values')
             + '; non-trivial = distinct (format, values)')
     return cases, first_case, rule
 
@@ -584,7 +584,11 @@ def main(tier, seed):
 
     # ---- formats: every string up to a length; parse them in the model first
     smax = 4 if tier == 'quick' else 6
-    fmts_all = list(formats(smax))
+    fmts_all = list(formats(min(smax, 5)))
+    if smax == 6:
+        # length 6 is 10^6 strings: a seeded 30% sample
+        rng6 = random.Random(f'{seed}-6')
+        fmts_all += [f for f in formats(6, 6) if rng6.random() < 0.3]
     extra = sorted(set(STACK_FORMATS + [w[0] for w in WITNESSES]) - set(fmts_all))
     parts_all = vlib.run_model(exe, [[2, f] for f in fmts_all + extra])
     kinds_of = {f: field_kinds(p) for f, p in zip(fmts_all + extra, parts_all)}
@@ -601,9 +605,11 @@ def main(tier, seed):
     casesX = [{'fmt': f, 'vals': [v]} for f in SHAPES for v in EXTREME + [n[0] for n in NUM]]
     casesB, ruleB = stack_cases(tier, kinds_of)
     casesC, ruleC = compiled_cases(sfr, kinds_of)
-    ctx.rule.append(f'scanner: every format string of length <= {smax} over the {len(ALPHA)} characters '
-                    f'{ALPHA!r} ({len(fmts_all)}): fmt_parts of the real constructor = parse_format '
+    ctx.rule.append(f'scanner: every format string of length <= {min(smax, 5)} over the {len(ALPHA)} '
+                    f'characters {ALPHA!r}' + (' and a seeded 30% of those of length 6' if smax == 6 else '')
+                    + f' ({len(fmts_all)} strings): fmt_parts of the real constructor = parse_format '
                     f'(constructor results taken from the formatter runs)')
+    ctx.extra['exhaustive'] = False
     ctx.rule.append(ruleA)
     ctx.rule.append(f'formatter_extreme: {len(SHAPES)} field shapes (0..20 decimals) x '
                     f'{len(EXTREME) + len(NUM)} values incl. 5e-324, 1.8e308, 1e22, inf, nan, LONG limits, '
